@@ -74,6 +74,11 @@ PROPS = {
         dict(kind="macro", profile="C13", preds="frame", quick=400, thorough=10000)]),
     "C14": dict(theorems=["Props/C14.v"], parts=[
         dict(kind="macro", profile="C14", preds="iso,pure", quick=400, thorough=10000)]),
+    "C17": dict(theorems=["parts/locks/coq|CLL|Props_C17.v"], parts=[
+        dict(kind="locks"),
+        dict(kind="sched", mode="deadlock", quick=500, thorough=0)]),
+    "C18": dict(theorems=["Props/C18.v"], parts=[
+        dict(kind="sched", mode="consistency", quick=700, thorough=0)]),
     "C19": dict(theorems=["parts/attrs/coq|CLA|Props_C19.v", "Props/C01w.v"], parts=[
         dict(kind="ext", name="attrs", quick=2000, thorough=30000),
         dict(kind="macro", profile="C19", preds="pure,limit,ttl,order,err,cif,inv,stats,tags,frame", quick=400, thorough=10000, panic_is_failure=True)]),
@@ -546,6 +551,163 @@ def part_ext(run, part):
                           replay_hdr + out[-2000:], False, "%s run" % name)
 
 
+
+# ---------------------------------------------------------------------------------------
+# E6: lock traces and two-thread schedules on the macro-generated functions (hook H1)
+# ---------------------------------------------------------------------------------------
+def corpus_table():
+    t = {}
+    for line in open(BUILD + "/corpus/corpus_table.txt"):
+        w = line.split()
+        if w and w[0] == "FN":
+            t[int(w[1])] = dict(name=w[2], fl=w[3], pol=w[4], limit=None if w[5] == "-" else int(w[5]),
+                                mem=None if w[7] == "-" else int(w[7]), is_result=w[10] == "1", ret=int(w[13]) // 10)
+    return t
+
+
+def part_locks(run, part):
+    """C17: every recorded lock trace is a trace of the operation's lock program (accepts) and respects the order"""
+    ensure_corpus()
+    if not build_harness(run, "vh-macro"):
+        return
+    tf = BUILD + "/traces.txt"
+    rc, out = sh("%s/target/debug/vh-macro traces > %s" % (BUILD, tf), timeout=600)
+    if rc != 0:
+        run.add_violation("mismatch", "vh-macro traces failed: " + out[-300:], out[-2000:], False, "traces-run")
+        return
+    drv = ROOT + "/parts/locks/ocaml/locks_driver"
+    rc, out = sh("cd %s/parts/locks/ocaml && ocamlfind ocamlopt -O2 -w -a locks_model.mli locks_model.ml locks_driver.ml -o locks_driver 2>&1 && ./locks_driver < %s" % (ROOT, tf), timeout=600)
+    oks, bad, fails, stats = 0, [], [], {}
+    for line in out.splitlines():
+        t = line.split(" ", 2)
+        if t[0] == "V":
+            if t[2].startswith("ok"):
+                oks += 1
+            else:
+                bad.append(line)
+        elif t[0] == "F":
+            fails.append(line)
+        elif t[0] == "STAT":
+            stats[t[1]] = t[2]
+    run.cov["evaluations"] += oks + len(bad)
+    run.cov["traces_validated_against_impl"] += oks
+    run.ext_nontrivial += oks
+    run.cov["histograms"]["lock_traces"] = stats
+    run.cov["samples"] += [dict(lock_trace=l.strip()[:300]) for l in open(tf).readlines()[3:5]]
+    run.cov["parts"].append(dict(kind="locks", traces=oks + len(bad)))
+    run.lock_problems = fails + bad
+    if rc != 0 and not (fails or bad):
+        run.add_violation("mismatch", "lock trace driver failed: " + out[-300:], out[-2000:], False, "locks-driver")
+
+
+def check_sched_case(lines, table):
+    """returns (deadlock, problems) for one schedule's output"""
+    head = lines[0].split()
+    f = int(head[2][1:])
+    info = table[f]
+    problems, deadlock = [], False
+    expect = lambda fi, x: 2 * ((fi * 37 + x * 11) % 500 + 1)
+    for l in lines[1:]:
+        t = l.split()
+        if not t:
+            continue
+        if t[0] == "SCHED":
+            deadlock = "deadlock=1" in l
+            if deadlock:
+                problems.append("DEADLOCK " + l[6:])
+        elif t[0] in ("RA", "RB", "Q", "P"):
+            m = re.search(r"call (\d+) (\d+) .*exec=\d+ enc=(\d+)", l) if t[0] in ("Q", "P") else None
+            if m and table[int(m.group(1))]["ret"] == 0 and int(m.group(3)) != expect(int(m.group(1)), int(m.group(2))):
+                problems.append("VALUE call f%s x=%s returned enc %s, the function's value is %d"
+                                % (m.group(1), m.group(2), m.group(3), expect(int(m.group(1)), int(m.group(2)))))
+            if "panic=" in l:
+                problems.append("PANIC " + l)
+        elif t[0] == "W":
+            parts = [x.strip() for x in l[2:].split("|")]
+            wf = int(parts[0])
+            q = [] if parts[1] == "-" else parts[1].split(",")
+            st = [] if parts[2] == "-" else [e.split(":") for e in parts[2].split(";")]
+            keys = [e[0] for e in st]
+            for k in keys:
+                if k not in q:
+                    problems.append("UNTRACKED f%d: key %s is stored but not in the order queue %s" % (wf, k, q))
+            lim = table[wf]["limit"]
+            if lim is not None and len(keys) > lim:
+                problems.append("LIMIT f%d holds %d entries at quiescence, limit %d" % (wf, len(keys), lim))
+            if table[wf]["ret"] == 0:
+                for e in st:
+                    if int(e[0]) >= 0 and int(e[1]) != expect(wf, int(e[0])):
+                        problems.append("VALUE f%d stores enc %s under key %s, the function's value is %d" % (wf, e[1], e[0], expect(wf, int(e[0]))))
+    return deadlock, problems
+
+
+def part_sched(run, part):
+    ensure_corpus()
+    if not build_harness(run, "vh-macro"):
+        return
+    n = part["quick"] if run.tier == "quick" else part["thorough"]
+    sf, of = BUILD + "/sched_%s.txt" % run.pid, BUILD + "/sched_obs_%s.txt" % run.pid
+    rc, out = sh("python3 %s/tools/gen_sched.py --table %s/corpus/corpus_table.txt --seed %d --count %d --out %s"
+                 % (ROOT, BUILD, run.seed, n, sf))
+    if rc != 0:
+        raise RuntimeError("gen_sched failed: " + out)
+    geninfo = json.loads(out)
+    cpath = ROOT + "/corpus/sched.txt"
+    corpus = open(cpath).read() if os.path.exists(cpath) else ""
+    with open(sf) as fh:
+        text = corpus + fh.read()
+    with open(sf, "w") as fh:
+        fh.write(text)
+    rc, out = sh("%s/target/debug/vh-macro run %s %s" % (BUILD, sf, of), timeout=3000)
+    if rc != 0:
+        run.add_violation("mismatch", "vh-macro sched run failed: " + out[-300:], out[-2000:], False, "sched-run")
+        return
+    table = corpus_table()
+    inputs = {c[0].split()[1]: c for c in split_cases(text.replace("CCASE", "CASE"))}
+    outs, cur = {}, None
+    for l in open(of):
+        if l.startswith("CCASE"):
+            cur = l.split()[1]
+            outs[cur] = [l.rstrip("\n")]
+        elif cur:
+            outs[cur].append(l.rstrip("\n"))
+    want = part["mode"]
+    n_dead = n_bad = reached = blocked = 0
+    reported = 0
+    for cid, lines in sorted(outs.items()):
+        dl, problems = check_sched_case(lines, table)
+        if any("reached=1" in l for l in lines):
+            reached += 1
+        if any("b_blocked=1" in l for l in lines):
+            blocked += 1
+        mine = [p for p in problems if (p.startswith("DEADLOCK") if want == "deadlock" else not p.startswith("DEADLOCK"))]
+        if dl:
+            n_dead += 1
+        if mine:
+            n_bad += 1
+            if reported < 2:
+                body = "\n".join(inputs.get(cid, [cid])).replace("CASE", "CCASE", 1)
+                run.add_violation("prop", "schedule %s on the real code: %s" % (cid, mine[0][:300]),
+                                  body + "\n# " + "\n# ".join(mine[:4]), True, "sched %s" % mine[0].split()[0])
+                reported += 1
+    run.cov["evaluations"] += len(outs)
+    run.cov["traces_validated_against_impl"] += len(outs) - n_bad
+    run.ext_nontrivial += reached
+    run.cov["histograms"]["schedules"] = dict(generated=geninfo["schedules"], full_enumeration=geninfo["enumeration"],
+                                               pause_point_reached=reached, second_thread_blocked=blocked,
+                                               deadlocks=n_dead, op_pairs=geninfo["op_pairs"])
+    run.cov["exhaustive"] = geninfo["schedules"] == geninfo["enumeration"]
+    some = sorted(outs.items())[:1]
+    run.cov["samples"] += [dict(schedule=l) for _, ls in some for l in ls[:12]]
+    run.cov["parts"].append(dict(kind="sched", mode=want, schedules=len(outs)))
+    # C17: a lock-order problem seen in the traces without a deadlock replay found
+    if want == "deadlock" and getattr(run, "lock_problems", None) and reported == 0:
+        lp = run.lock_problems
+        run.add_violation("mismatch", "lock traces do not match the lock programs of LockProgs.v (%d traces; first: %s); "
+                          "no deadlock was found among %d schedules" % (len(lp), lp[0][:300], len(outs)),
+                          "\n".join(lp[:6]), False, "locks " + lp[0][:40])
+
+
 def nontrivial_ids(obs_file):
     """cases whose implementation trace contains an eviction (a stored key disappears on a store) or an expiry"""
     ids, cur, prev_keys, nt = set(), None, set(), False
@@ -569,7 +731,7 @@ def nontrivial_ids(obs_file):
     return ids
 
 
-PART_RUNNERS = {"core": part_core, "macro": part_macro, "ext": part_ext}
+PART_RUNNERS = {"core": part_core, "macro": part_macro, "ext": part_ext, "locks": part_locks, "sched": part_sched}
 
 
 # ---------------------------------------------------------------------------------------
